@@ -2803,9 +2803,8 @@ int32 parseFinished(ssl_t *ssl, int32 hsLen,
 #ifdef USE_DTLS
     if (ACTV_VER(ssl, v_dtls_any))
     {
-        /* A successful parse of the FINISHED message means the record sequence
-           numbers have been reset so we need to clear out our replay detector */
-        zeroSixByte(ssl->lastRsn);
+        /* (The replay detector was reset when the epoch changed; the record
+           of this very message is already marked in it.) */
 
         /* This will just be set between CCS parse and FINISHED parse */
         ssl->parsedCCS = 1;
